@@ -1,4 +1,5 @@
 CONSTANT SigCache = FALSE
+CONSTANT Devices <- FileDevices
 INIT TInit
 NEXT TNext
 CONSTRAINT Constr
